@@ -47,7 +47,7 @@ func (c11) Extra() map[string]any {
 	return e
 }
 
-var c11Faults = []string{"skip-reset-w", "skip-reset-b", "skip-reset-both", "skip-backprop", "dup-update", "reorder-bw", "bad-update", "skip-update-w", "skip-update-b", "bad-call", "restore"}
+var c11Faults = []string{"skip-reset-w", "skip-reset-b", "skip-reset-both", "skip-backprop", "dup-update", "reorder-bw", "bad-update", "skip-update-w", "skip-update-b", "bad-call", "restore", "dup-forward"}
 
 func (c11) Generate(r *sim.Rand, tier string) *sim.Scenario {
 	sc := &sim.Scenario{Cfg: map[string]float64{}, Data: map[string][]float64{}}
@@ -531,6 +531,10 @@ func (c11) execOne(sc *sim.Scenario) *sim.Outcome {
 		out.Fail("model-assembly", "FC.Weights() did not return two addressable parameters")
 		return fin()
 	}
+	if *weights[0].Value != nil && *weights[0].Value == *weights[1].Value {
+		out.Fail("model-assembly", "W and B are one and the same tensor object after construction (the caller did not tie them)")
+		return fin()
+	}
 	if sc.Cfg["tied"] == 1 {
 		// one tensor object in both slots (both have shape [Outputs]): it plays both
 		// roles of the formula, so dLoss/dw is the sum of the two roles' derivatives
@@ -597,6 +601,10 @@ func (c11) execOne(sc *sim.Scenario) *sim.Outcome {
 			out.Discard = "near-nondifferentiable"
 			return out
 		}
+		if *slot(0) == *slot(1) && sc.Cfg["tied"] != 1 {
+			out.Fail("weights-aliased", "%s: W and B are one and the same tensor object although the caller never put one object into both slots", where)
+			return fin()
+		}
 		if *slot(0) == *slot(1) {
 			for o := 0; o < cfg.O; o++ {
 				gW[o], mW[o], aW[o] = gW[o]+gB[o], mW[o]+mB[o], aW[o]+aB[o]
@@ -614,53 +622,73 @@ func (c11) execOne(sc *sim.Scenario) *sim.Outcome {
 		sim.Pause()
 		oldWfp, oldBfp := sim.ValFP(oldW), sim.ValFP(oldB)
 		sim.Resume()
-		/* forward, loss */
-		y, err := fc.Forward(xs[st.N])
-		if err != nil {
-			out.Fail("forward-error", "%s: FC.Forward failed: %v", where, err)
-			return fin()
-		}
-		if activation != nil {
-			y, err = activation.Forward(y)
-			if err != nil {
-				out.Fail("forward-error", "%s: activation Forward on a [%d,%d] tensor failed: %v", where, cfg.batch, cfg.O, err)
-				return fin()
+		reps := 1
+		if st.Tag == "dup-forward" {
+			// step-duplication: forward, loss and back-propagation run twice at the
+			// same weights before the update (gradient accumulation over two
+			// graphs): the gradients of the two graphs add up
+			reps = 2
+			for o := 0; o < cfg.O; o++ {
+				gW[o], mW[o], aW[o] = 2*gW[o], 2*mW[o], 2*aW[o]
+				gB[o], mB[o], aB[o] = 2*gB[o], 2*mB[o], 2*aB[o]
 			}
-		}
-		if cfg.loss != 2 {
-			y, err = y.Squeeze(1)
-			if err != nil {
-				out.Fail("forward-error", "%s: Squeeze(1) of the [batch,1] output failed: %v", where, err)
-				return fin()
-			}
-		}
-		l, err := loss.Compute(y, ts[st.N])
-		if err != nil {
-			out.Fail("forward-error", "%s: loss Compute failed: %v", where, err)
-			return fin()
-		}
-		sim.Pause()
-		if len(l.Shape()) != 0 {
-			out.Fail("loss-value", "%s: loss is not a scalar tensor (shape %v)", where, l.Shape())
-			sim.Resume()
-			return fin()
-		}
-		lv := sim.Values(l)[0]
-		sim.Resume()
-		lh = lh.F64(lv)
-		if !(math.Abs(lv-refLoss) <= 1e-9*(lossAbs+math.Abs(refLoss))+1e-300) {
-			out.Fail("loss-value", "%s: loss %v, reference %v at the current weights W=%v B=%v", where, lv, refLoss, W, B)
-			return fin()
-		}
-		/* backward */
-		if st.Tag != "skip-backprop" {
-			if err := tensor.BackPropagate(l); err != nil {
-				out.Fail("backprop-error", "%s: BackPropagate(loss) failed: %v", where, err)
-				return fin()
-			}
-		} else {
-			out.Faults["step-omission/backprop"]++
+			out.Faults["step-duplication/forward-and-backprop"]++
 			faultFired = true
+		}
+		var losses []tensor.Tensor
+		for rep := 0; rep < reps; rep++ {
+			/* forward, loss */
+			y, err := fc.Forward(xs[st.N])
+			if err != nil {
+				out.Fail("forward-error", "%s: FC.Forward failed: %v", where, err)
+				return fin()
+			}
+			if activation != nil {
+				y, err = activation.Forward(y)
+				if err != nil {
+					out.Fail("forward-error", "%s: activation Forward on a [%d,%d] tensor failed: %v", where, cfg.batch, cfg.O, err)
+					return fin()
+				}
+			}
+			if cfg.loss != 2 {
+				y, err = y.Squeeze(1)
+				if err != nil {
+					out.Fail("forward-error", "%s: Squeeze(1) of the [batch,1] output failed: %v", where, err)
+					return fin()
+				}
+			}
+			l, err := loss.Compute(y, ts[st.N])
+			if err != nil {
+				out.Fail("forward-error", "%s: loss Compute failed: %v", where, err)
+				return fin()
+			}
+			sim.Pause()
+			if len(l.Shape()) != 0 {
+				out.Fail("loss-value", "%s: loss is not a scalar tensor (shape %v)", where, l.Shape())
+				sim.Resume()
+				return fin()
+			}
+			lv := sim.Values(l)[0]
+			sim.Resume()
+			lh = lh.F64(lv)
+			if !(math.Abs(lv-refLoss) <= 1e-9*(lossAbs+math.Abs(refLoss))+1e-300) {
+				out.Fail("loss-value", "%s: loss %v, reference %v at the current weights W=%v B=%v", where, lv, refLoss, W, B)
+				return fin()
+			}
+			losses = append(losses, l)
+		}
+		/* backward: after all graphs of the step are built (a back-propagated
+		   weight is spent: a graph built on it afterwards would be dead) */
+		for _, l := range losses {
+			if st.Tag != "skip-backprop" {
+				if err := tensor.BackPropagate(l); err != nil {
+					out.Fail("backprop-error", "%s: BackPropagate(loss) failed: %v", where, err)
+					return fin()
+				}
+			} else {
+				out.Faults["step-omission/backprop"]++
+				faultFired = true
+			}
 		}
 		if st.Tag == "bad-update" {
 			out.Faults["invalid-call/update-nil"]++
